@@ -645,7 +645,38 @@ def make_usage_case(ops, strata, rng, maxorbit=48):
             "delta": [rng.choice((-1, 1)) * rng.randrange(1, 4) / 10.0 for _ in range(3)]}
 
 
-def finder_usage(sg, ops, case, pid):
+def _boxd_exact(u, v):
+    m = F(0)
+    for a, b in zip(u, v):
+        d = (a - b) - math.floor(a - b)
+        if d > F(1, 2):
+            d = 1 - d
+        m = max(m, d)
+    return m
+
+
+def query_record(g, q, eps, pid):
+    """One query of the real GeneratorSite next to the certificate line for the extracted model
+    (kind 7 = position_formula_query, 8 = u_formula_query); None when the decision margin is below 1e-9."""
+    sites = [[F(float(v)) for v in p] for p in g.eqxyz]
+    qq = [F(float(v)) for v in q]
+    ds = sorted(_boxd_exact(sx, qq) for sx in sites)
+    e = F(float(eps))
+    if abs(ds[0] - e) < F(1, 10 ** 9) or (len(ds) > 1 and ds[1] - ds[0] < F(1, 10 ** 9)):
+        return None
+    kind = 7 if pid == "C05" else 8
+    ans = g.positionFormula(q) if pid == "C05" else g.UFormula(q)
+    real = int(g.eqIndex(q)) if ans else -9
+    toks = [str(kind), "0", qs(e), str(len(sites))] + [qs(v) for sx in sites for v in sx] + [qs(v) for v in qq]
+    return {"line": " ".join(toks), "real": real, "what": "GeneratorSite(%s, %s, eps=%g).%s(%s)" % (
+        g_name(g), [float(v) for v in g.xyz], eps, "positionFormula" if pid == "C05" else "UFormula", [float(v) for v in q])}
+
+
+def g_name(g):
+    return getattr(getattr(g, "_c0506_sg", None), "short_name", "?")
+
+
+def finder_usage(sg, ops, case, pid, qlog=None):
     """How the objects are used, on the real code.  Yields (kind, message, data); kinds prefixed by what they test:
     alias-*   the same float64 ndarray object handed over for several sites / constructions: the caller's array must stay
               unchanged and every result must equal the one obtained with fresh copies;
@@ -764,9 +795,15 @@ def finder_usage(sg, ops, case, pid):
                 break
             upar = g.Uparameters
             ppar = {n: F(float(v)) for n, v in g.pparameters}
+            g._c0506_sg = sg
             for i, p in enumerate(g.eqxyz):
                 q = p + 0.9 * eps * delta
                 pf, uf = g.positionFormula(q), g.UFormula(q)
+                if qlog is not None and i < 6:
+                    for qq in (q, p + 40.0 * eps * delta, p + 1.7 * eps * delta, p + numpy.array([1.0, -2.0, 3.0]) + 0.5 * eps * delta):
+                        r = query_record(g, qq, eps, pid)
+                        if r is not None:
+                            qlog.append(r)
                 if not want_u:
                     if sorted(pf) != ["x", "y", "z"]:
                         yield ("eps-formula", "%s.positionFormula(%s) = %r for a point within eps of the equivalent position %s" % (
